@@ -55,6 +55,7 @@ var registry = map[string]runner{
 	"C01/lexical":      w01.Lexical,
 	"C01/corpus":       w01.Corpus,
 	"C03/trees":        w03.Run,
+	"C03/processed":    w03.Processed,
 	"C10/grid":         w10.Grid,
 	"C10/chains":       w10.Chains,
 	"C10/malformed":    w10.Malformed,
